@@ -660,8 +660,8 @@ def run_check(prop, tier, seed=None):
         for f in futs:
             remaining = budget - (time.time() - t0)
             try:
-                if remaining <= 0 and not f.done():
-                    raise cf.TimeoutError()  # budget used up: do not wait for what has not finished
+                if remaining <= -budget and not f.done():
+                    raise cf.TimeoutError()  # twice the budget used up: do not wait for what has not finished
                 recs.append(f.result(timeout=max(1, remaining)))
             except cf.TimeoutError:
                 f.cancel()
